@@ -22,6 +22,7 @@ mod rpcx;
 mod sim;
 mod simcheck;
 mod storetrace;
+mod tableorder;
 mod trace;
 
 use std::path::PathBuf;
